@@ -100,8 +100,6 @@ Section Atom.
        s' = finish cfg (with_accts s (<[a_id receiver := reset_entry (acct_of s (a_id receiver)) (Some fee) None]>
                                        (<[sid := reset_entry (acct_of s sid) None (Some (t_nonce t))]> (accts s)))) t 2%N fee)).
     { intros receiver status Rold B. unfold exec_tx_body in B.
-      destruct (is_gov (t_kind t)).
-      { destruct (exec_governance _ _ _ _ _ _ _) as [[[? ?] ?]|]; contradiction. }
       assert (Single : forall sdx fee, a_id sdx = sid -> a_old sdx = acct_of s sid ->
                 match reset_account s sdx (Some fee) (Some (t_nonce t)) with
                 | Some s'' => RFeeNonce (finish cfg s'' t 2%N fee) | None => RRejected end = RFeeNonce s' ->
@@ -113,6 +111,13 @@ Section Atom.
       { intros sdx fee I O R. destruct (reset_account s sdx (Some fee) (Some (t_nonce t))) as [s2|] eqn:R1; [|discriminate].
         destruct (reset_account_exact _ _ _ _ _ R1) as [E L]. rewrite I, O in E. rewrite O in L.
         exists fee. left. split; [exact L|]. injection R as <-. rewrite E. reflexivity. }
+      destruct (is_ent (t_kind t)) eqn:EN.
+      { destruct (t_kind t) eqn:K; try discriminate EN. cbn [is_gov] in B.
+        destruct (t_fddeny t); [|contradiction]. cbn [negb orb] in B.
+        apply (Single (get_astate s sid) 0); [reflexivity|reflexivity|].
+        destruct (reset_account s (get_astate s sid) _ _); [f_equal; exact B|contradiction]. }
+      destruct (is_gov (t_kind t)).
+      { destruct (exec_governance _ _ _ _ _ _ _) as [[[? ?] ?]|]; contradiction. }
       destruct (match t_kind t with KFeeDeleg => true | _ => false end) eqn:FD.
       - assert (K : t_kind t = KFeeDeleg) by (destruct (t_kind t); try discriminate; reflexivity).
         destruct (validate_max_fee _ _ _ _ _ _); cbn [negb] in B; [|contradiction].
